@@ -173,6 +173,10 @@ def same_packets(r, a):
     if r["permit"] != a["permit"] or r["proto"] != a["proto"]:
         return "action/protocol"
     for f in ("src", "dst"):
+        if a[f][0] == "group" or r[f][0] == "group":
+            if not (a[f][0] == "group" and r[f][0] == "group" and r[f][1] == a[f][1]):
+                return f"{f} address group"
+            continue
         b, m = r[f]
         ab, am = a[f][1], a[f][2]
         if m != am or (b & ~m & ALL) != (ab & ~am & ALL):
